@@ -134,5 +134,21 @@ pub fn eq_bytes(a: &[u8], b: &[u8]) -> bool {
     acc == 0
 }
 
+/// Element-wise (typed) replacement for `<[T]>::copy_from_slice` (stubbed in every harness).
+/// Reason (measured, DESIGN.md "engine defect"): CBMC 6.11's memcpy (`__CPROVER_array_replace`) loses bytes when a
+/// copy ends at the end of a `generic_array::GenericArray<u8, U42>` (a tree of nested structs; 40+2, 39+3 and 34+8
+/// failed) — byte_update across the end of nested structs is lowered wrongly. Single-element assignments are
+/// lowered correctly; `h_lemmas::engine_selftest_ga_copy` checks the patterns the code under test produces.
+pub fn elementwise_copy<T: Copy>(this: &mut [T], src: &[T]) {
+    if this.len() != src.len() {
+        panic!("source slice length does not match destination slice length");
+    }
+    let mut i = 0;
+    while i < src.len() {
+        this[i] = src[i];
+        i += 1;
+    }
+}
+
 /// no-op replacement for `zeroize::optimization_barrier` (inline asm, unsupported by Kani)
 pub fn noop_barrier<T: ?Sized>(_: &T) {}
